@@ -25,6 +25,18 @@ CHECKS = {
  "C19": ("seeded boundary/random pairs on Dual, Dual2 and Number against float comparison, exact sign-flip / fold / identity oracles and reference-AD remainder",
          "Runtime oracle over 10^5..10^6 generated pairs including negative values and divisors, equal values, +-0 and NaN (comparisons).",
          "DESIGN.md 3/C19", TRUST),
+ "C04": ("calendar zoo x every date x 5 modifiers x both flags against linear scans over a bus/settle bit-vector model; probing proxy calendar with a logical-step budget",
+         "Runtime oracle: exhaustive over dates for the 14 built-ins (thorough: every date 1970-2200) and sampled over generated calendars/unions with hostile holiday sets; termination restated as a 10^6-probe bound.",
+         "DESIGN.md 3/C04", TRUST + " is_bus_day/is_settlement are taken as given (judged in C06/C07)."),
+ "C05": ("all 256 day counts x both flags x business/non-business starts on the calendar zoo against rank/select over the bit-vector model",
+         "Runtime oracle sweeping the complete i8 parameter range for add_bus_days (with inverse), lag, add_days and bus_date_range on sampled calendars and start dates.",
+         "DESIGN.md 3/C05", TRUST),
+ "C06": ("every date 1970-2200 of generated unions / name strings against the conjunction of member predicates; equality near-miss pairs against date-by-date agreement",
+         "Runtime oracle, exhaustive over dates, sampled over member selections, name strings and near-miss pairs; all kind pairings and operand orders of ==.",
+         "DESIGN.md 3/C06", TRUST),
+ "C08": ("add_months(Act) against own civil arithmetic for every start date x offset x roll kind; helper functions for every month; adjusting modifiers against the C04 oracle",
+         "Thorough tier enumerates every start date 1970-2200 x 83 offsets x 35 roll kinds (2.4*10^8 calls); quick samples 3*10^5 plus a boundary set.",
+         "DESIGN.md 3/C08", TRUST),
  "C07": ("exhaustive sweep of 14 names x 84371 dates against an independent holiday-rules engine + fixing-file back-tests",
          "Exhaustive runtime comparison over the complete finite domain (every date 1970-2200 of every built-in calendar) with a hand-transcribed rule engine, plus the 9 shipped fixing histories. For the pinned tables the verdict is as strong as the transcription of the published rules.",
          "DESIGN.md 3/C07",
